@@ -36,7 +36,7 @@ def main():
         meta = json.load(open(mp))
         patch = os.path.join(d, 'patch.diff')
         assert subprocess.run(['git', '-C', '/repo', 'status', '--porcelain'], capture_output=True, text=True).stdout == '', '/repo not clean'
-        applies = subprocess.run(['git', '-C', '/repo', 'apply', '--check', patch], capture_output=True).returncode == 0
+        applies = subprocess.run(['git', '-C', '/repo', 'apply', '--check', patch], capture_output=True).returncode == 0 and not meta.get('evaluate_on_base')
         wt = None
         try:
             if applies:
